@@ -13,6 +13,7 @@ import (
 	"bytes"
 	"crypto/tls"
 	"fmt"
+	"github.com/bokysan/socketace/v2/internal/client/upstream"
 	"strings"
 	"testing"
 	"time"
@@ -31,9 +32,15 @@ type Case struct {
 	Stallers int    `json:"stallers"`
 	Good     int    `json:"good"`
 	AgeMin   int    `json:"age_min,omitempty"` // fake minutes the stalled peers stay connected before the well-behaved clients arrive
+	// Early n > 0: one well-behaved client is connected (and served) BEFORE the stallers arrive; afterwards it
+	// opens n further logical connections on its session, each of which must be served
+	Early int `json:"early,omitempty"`
 }
 
 func (c Case) String() string {
+	if c.Early > 0 {
+		return fmt.Sprintf("%s stall=%s stallers=%d good=%d stalledFor=%dmin early-client-opens=%d", c.Endpoint, c.Stall, c.Stallers, c.Good, c.AgeMin, c.Early)
+	}
 	return fmt.Sprintf("%s stall=%s stallers=%d good=%d stalledFor=%dmin", c.Endpoint, c.Stall, c.Stallers, c.Good, c.AgeMin)
 }
 
@@ -271,6 +278,45 @@ func execute(t *testing.T, c Case) (kind, detail string) {
 		}
 		w.Chan("slow").BlockDial = make(chan struct{})
 		bubble.Wait()
+		// serve: one more logical connection of client ups carries 1000 bytes to its target and back
+		serve := func(ups *upstream.Upstreams, tag byte, who string) bool {
+			settle := func() {
+				bubble.Wait()
+				if c.Endpoint == "dns" {
+					bubble.Advance(20 * time.Second)
+				}
+			}
+			app := w.OpenAppVia(ups, "x", nil)
+			settle()
+			payload := world.Payload(tag, 0, 1000)
+			app.StartWrite(payload)
+			settle()
+			var tg *world.Endpoint
+			for j := 0; j < w.Chans[0].NumTargets(); j++ {
+				if t := w.Chans[0].Target(j); bytes.Equal(t.Bytes(), payload) {
+					tg = t
+				}
+			}
+			if tg == nil {
+				kind, detail = "blocked-by-stalled-peer", fmt.Sprintf("%s: no target connection received its 1000 bytes (%d target connection(s)); logs=%q", who, w.Chans[0].NumTargets(), bubble.RecentLogs())
+				return false
+			}
+			tg.StartWrite(tg.Bytes())
+			settle()
+			if ao := app.Obs(); ao.Got != 1000 {
+				kind, detail = "blocked-by-stalled-peer", fmt.Sprintf("%s: echo returned %d of 1000 bytes", who, ao.Got)
+				return false
+			}
+			return true
+		}
+		var early *upstream.Upstreams
+		if c.Early > 0 {
+			early = w.NewClient()
+			if !serve(early, 0x30, "early client, before any staller") {
+				kind = "setup" // nothing stalls yet: not this property's business
+				return
+			}
+		}
 		var alive []func() bool
 		for i := 0; i < c.Stallers; i++ {
 			a, err := stall(w, c)
@@ -290,6 +336,11 @@ func execute(t *testing.T, c Case) (kind, detail string) {
 		// well-behaved clients arrive now; no fake time passes (except the DNS exchange timers,
 		// which need the clock: DNS clients get a bounded fake-time allowance that is far below
 		// any time-out that would make the stallers go away)
+		for k := 1; k <= c.Early; k++ {
+			if !serve(early, byte(0x30+k), fmt.Sprintf("the client that was connected before the %d staller(s) (%s), further logical connection %d", c.Stallers, c.Stall, k)) {
+				return
+			}
+		}
 		type good struct {
 			app *world.Endpoint
 		}
@@ -368,6 +419,9 @@ func cases(thorough bool) []Case {
 			for _, stallers := range sts {
 				for _, good := range goods {
 					out = append(out, Case{Endpoint: ep, Stall: st, Stallers: stallers, Good: good})
+					if good == 1 {
+						out = append(out, Case{Endpoint: ep, Stall: st, Stallers: stallers, Good: good, Early: 3})
+					}
 					if good == 1 || thorough {
 						out = append(out, Case{Endpoint: ep, Stall: st, Stallers: stallers, Good: good, AgeMin: 7})
 					}
